@@ -308,6 +308,28 @@ func checkC13(c *core.Ctx) {
 		b = clone(a, fmt.Sprintf("wb%d", v))
 		b.Weather.Layout, b.Weather.NumHeader = 0, 1
 		add(&pairCase{Name: a.Name, What: fmt.Sprintf("weather layout 1 vs 0 (precipitation correction %d)", a.Cfg.PreCorr), A: a, B: b})
+		// optional columns that change from year to year: sunshine hours are reported in the first calendar year only,
+		// global radiation has short gaps in every year (the per-year reader sees a file without sunshine values after a
+		// file with them; the multi-year readers see one column)
+		a3 := clone(a, fmt.Sprintf("ws%d", v))
+		a3.Weather.HasSun = true
+		y0 := gen.YearOfDay(a3.Weather.First)
+		for k := range a3.Weather.Days {
+			d := &a3.Weather.Days[k]
+			n := a3.Weather.First + k
+			if gen.YearOfDay(n) == y0 {
+				d.Sun = (d.Rad / 2) - (d.Rad/2)%5 // hours in tenths, a round number
+				if d.Sun < 0 {
+					d.Sun = 0
+				}
+			}
+			if doy := gen.Doy(n); doy%61 >= 17 && doy%61 <= 18+(v%2) {
+				d.Rad = gen.None
+			}
+		}
+		b3 := clone(a3, fmt.Sprintf("wt%d", v))
+		b3.Weather.Layout, b3.Weather.NumHeader = 0, 1
+		add(&pairCase{Name: a.Name + "_sun", What: "weather layout 1 vs 0, sunshine hours reported in the first year only, radiation gaps", A: a3, B: b3})
 		// the day-of-year layout derives the mean temperature as (tmin + tmax) / 2 in floating point: whole-degree
 		// extremes make that mean an exact binary number with one decimal, the same number the other layout reads
 		a2 := clone(a, fmt.Sprintf("wd%d", v))
@@ -325,14 +347,26 @@ func checkC13(c *core.Ctx) {
 		// (6) date formats
 		a = baseEquivProject(c, fmt.Sprintf("da%d", v), 1400+int64(v), nil)
 		a.Cfg.StartYear = 1960 + (a.Cfg.StartYear % 70)
-		a = rebase(c, a, 1400+int64(v))
+		if v%2 == 0 {
+			a = rebaseYears(c, a, 1400+int64(v), 1960, 1995) // 20th century: the century split can sit on the first year
+		} else {
+			a = rebase(c, a, 1400+int64(v))
+		}
 		for f := 0; f < 4; f++ {
 			if f == 1 {
 				continue
 			}
 			b = clone(a, fmt.Sprintf("d%d_%d", f, v))
 			b.Cfg.DateFormat = f
-			add(&pairCase{Name: a.Name, What: fmt.Sprintf("date format 1 vs %d", f), A: clone(a, fmt.Sprintf("dx%d_%d", f, v)), B: b})
+			ax := clone(a, fmt.Sprintf("dx%d_%d", f, v))
+			what := fmt.Sprintf("date format 1 vs %d", f)
+			// two-digit years: the century split sits ON the earliest year the project writes (yy = split is still 19yy)
+			// whenever that year lies in the 20th century; the whole project then fits into 19yy .. 19yy + 99
+			if y, _, _ := gen.YMD(a.EarliestDay()); y < 2000 && f != 3 {
+				ax.Cfg.DivideCentury, b.Cfg.DivideCentury = y%100, y%100
+				what += fmt.Sprintf(", century split %d = first year written", y%100)
+			}
+			add(&pairCase{Name: a.Name, What: what, A: ax, B: b})
 		}
 	}
 	trace := filepath.Join(c.Sub("pairs"), "trace.ndjson")
@@ -348,8 +382,12 @@ func checkC13(c *core.Ctx) {
 
 // rebase regenerates the project in a year window that every date format can express (1952..2040).
 func rebase(c *core.Ctx, p *gen.Project, salt int64) *gen.Project {
+	return rebaseYears(c, p, salt, 1960, 2030)
+}
+
+func rebaseYears(c *core.Ctx, p *gen.Project, salt int64, y0, y1 int) *gen.Project {
 	r := rngFor(c, salt)
-	q := gen.Random(r, p.Name, gen.Opts{Years: 2, MinLayers: 4, MaxLayers: 12, Schedules: true, Measure: true, ETMethods: []int{2, 3, 4}, DateFormats: []int{1}, StartYearMin: 1960, StartYearMax: 2030})
+	q := gen.Random(r, p.Name, gen.Opts{Years: 2, MinLayers: 4, MaxLayers: 12, Schedules: true, Measure: true, ETMethods: []int{2, 3, 4}, DateFormats: []int{1}, StartYearMin: y0, StartYearMax: y1})
 	q.Cfg.ResultFormat, q.Cfg.ResultExt = 1, "csv"
 	q.SetVerificationOutputs()
 	return q
